@@ -137,6 +137,13 @@ def gen_trait(k):
                 spec = dict(ARGS[4])
             else:
                 spec = dict(R.choice(ARGS))
+            if a > 0 and style == "elided" and kind == "oneway" and R.random() < 0.3:
+                # a placeholder argument: the caller passes a value, nothing is sent for it (only in oneway methods:
+                # they have no chain forms, whose signatures leave placeholders out today)
+                spec = dict(R.choice([ARGS[0], ARGS[1], ARGS[3], ARGS[5]]))
+                spec.update(name="_", var=f"a_placeholder{a}", key=None, wire=None, skip=True)
+                args.append(spec)
+                continue
             spec["name"] = an
             spec["var"] = "a_" + an.replace("r#", "")
             spec["key"] = an.replace("r#", "")
@@ -194,14 +201,17 @@ def driver(t, m, mi, others):
         decl.append(f'        let {a["var"]} = {a["gen"]};')
     pbuild = ["        let mut params = Map::new();"]
     for a in m["args"]:
+        if a.get("skip"):
+            continue
         key = a["wire"] or a["key"]
         val = a["js"].format(v=a["var"])
         if a.get("opt"):
             pbuild.append(f'        if {a["var"]}.is_some() {{ params.insert("{key}".into(), {val}); }}')
         else:
             pbuild.append(f'        params.insert("{key}".into(), {val});')
-    all_opt = bool(m["args"]) and all(a.get("opt") for a in m["args"])
-    has_args = bool(m["args"])
+    sent = [a for a in m["args"] if not a.get("skip")]
+    all_opt = bool(sent) and all(a.get("opt") for a in sent)
+    has_args = bool(sent)
     callargs = ", ".join(a["pas"].format(v=a["var"]) for a in m["args"])
     expect = f'Expect {{ method: "{fq}", params: {"Some(params.clone())" if has_args else "None"}, all_optional: {str(all_opt).lower()}, more: {str(m["kind"] == "more").lower()}, oneway: {str(m["kind"] == "oneway").lower()} }}'
     ctx = f'trait P{t["k"]} ({t["iface"]}) method {m["name"]}'
@@ -299,15 +309,18 @@ def driver(t, m, mi, others):
             odecl = [f'        let o_{a["var"]} = {a["gen"]};' for a in o["args"]]
             opb = ["        let mut oparams = Map::new();"]
             for a in o["args"]:
+                if a.get("skip"):
+                    continue
                 key = a["wire"] or a["key"]
                 val = a["js"].format(v="o_" + a["var"])
                 if a.get("opt"):
                     opb.append(f'        if o_{a["var"]}.is_some() {{ oparams.insert("{key}".into(), {val}); }}')
                 else:
                     opb.append(f'        oparams.insert("{key}".into(), {val});')
-            oall = bool(o["args"]) and all(a.get("opt") for a in o["args"])
+            osent = [a for a in o["args"] if not a.get("skip")]
+            oall = bool(osent) and all(a.get("opt") for a in osent)
             ocall = ", ".join(a["pas"].format(v="o_" + a["var"]) for a in o["args"])
-            oexp = f'Expect {{ method: "{wire_method(t, o)}", params: {"Some(oparams.clone())" if o["args"] else "None"}, all_optional: {str(oall).lower()}, more: {str(o["kind"] == "more").lower()}, oneway: false }}'
+            oexp = f'Expect {{ method: "{wire_method(t, o)}", params: {"Some(oparams.clone())" if osent else "None"}, all_optional: {str(oall).lower()}, more: {str(o["kind"] == "more").lower()}, oneway: false }}'
             w(f'    pub fn m{mi}_ext(rep: &mut Report, rng: &mut Rng) {{')
             w(f'        let ctx = "{ctx} [chain extension form, after chain_{o["name"]}]";')
             L.extend(decl)
